@@ -61,6 +61,7 @@ package basicnode
 // ---- plainMap: builder / assembler ----
 
 //@ func (Prototype__Map).NewBuilder() (nb)
+//@   assigns[C20] nothing
 //@   ensures[C01,C11] fresh(nb) && dyntype(nb, "*plainMap__Builder")
 //@   ensures[C01] unbox(nb, "*plainMap__Builder").plainMap__Assembler.state == maState_initial && fresh(unbox(nb, "*plainMap__Builder").plainMap__Assembler.w)
 
@@ -209,6 +210,7 @@ package basicnode
 //@   ensures[C01] old(itr.idx) >= len(itr.n.x) ==> iserr(err, "datamodel.ErrIteratorOverread") && v == nil && idx == 0 - 1 && itr.idx == old(itr.idx)
 
 //@ func (Prototype__List).NewBuilder() (nb)
+//@   assigns[C20] nothing
 //@   ensures[C01,C11] fresh(nb) && dyntype(nb, "*plainList__Builder")
 //@   ensures[C01] unbox(nb, "*plainList__Builder").plainList__Assembler.state == laState_initial && fresh(unbox(nb, "*plainList__Builder").plainList__Assembler.w)
 
@@ -284,6 +286,7 @@ package basicnode
 // ---- the "any" builder: Reset drops every reference to what was built before ----
 
 //@ func (Prototype__Any).NewBuilder() (nb)
+//@   assigns[C20] nothing
 //@   ensures[C01,C11] fresh(nb) && dyntype(nb, "*anyBuilder") && unbox(nb, "*anyBuilder").kind == datamodel.Kind_Invalid
 
 //@ func (*anyBuilder).Reset()
@@ -334,6 +337,8 @@ package basicnode
 // Every method of a finished node, of an iterator-free reader and of a prototype writes nothing
 // that existed before the call (iterators' Next, which advance the per-call iterator object, and
 // the assemblers have their own contracts above).
-//@ sweep[C20] assigns nothing: plainMap, plainList, plainBool, plainBytes, plainFloat, plainInt, plainUint, plainLink, plainString,
+//@ sweep[C20] assigns nothing: plainMap, plainList, plainBool, plainBytes, plainFloat, plainInt, plainUint, plainLink, plainString, streamBytes,
 //@   Prototype__Any, Prototype__Bool, Prototype__Bytes, Prototype__Float, Prototype__Int, Prototype__Link, Prototype__List, Prototype__Map, Prototype__String,
-//@   func NewBool, func NewBytes, func NewFloat, func NewInt, func NewUint, func NewLink, func NewString, func Chooser
+//@   NewBool(), NewBytes(), NewFloat(), NewInt(), NewUint(), NewLink(), NewString(), Chooser()
+// A streamBytes node boxed as a reader is a wrapper over the reader it was built from.
+//@ axiom streamBytes_wraps: forall r io.Reader :: dyntype(r, "streamBytes") ==> r.wraps == unbox(r, "streamBytes").ReadSeeker
